@@ -45,7 +45,9 @@ RegsC06 == Simple("absent") \cup Simple("F")
            \cup {Comp("and", CAnn("absent"), Poly("F"), "absent")}
 EllT(k, d, inc) == Base(k, inc) @@ [w |-> 8, h |-> 20, d |-> d]                 \* taller than wide
 RegsNear == {Ell(k, d, "absent") : k \in {"ellipse", "rectangle"}, d \in {<<1, 0, 1>>, <<0, 1, 1>>}} \cup {EAnn("eannulus", <<1, 0, 1>>, "absent")}
-RegsC07 == {Circle("absent"), CAnn("absent")} \cup {Ell(k, d, "absent") : k \in {"ellipse", "rectangle"}, d \in DirsAll}
+EllN(k, d, inc) == Base(k, inc) @@ [w |-> 12, h |-> 13, d |-> d]               \* nearly round (3 x 3.25 pixels): the angle still matters
+CAnnThin == Base("cannulus", "absent") @@ [r1 |-> 40, r2 |-> 42]               \* a ring half a pixel thick
+RegsC07 == {Circle("absent"), CAnn("absent"), CAnnThin} \cup {EllN(k, d, "absent") : k \in {"ellipse", "rectangle"}, d \in Dirs5} \cup {Ell(k, d, "absent") : k \in {"ellipse", "rectangle"}, d \in DirsAll}
            \cup {EllT(k, d, "absent") : k \in {"ellipse", "rectangle"}, d \in Dirs5}
            \cup {Base(k, "absent") @@ [w1 |-> 6, h1 |-> 6, w2 |-> 14, h2 |-> 14, d |-> d] : k \in {"eannulus", "rannulus"}, d \in Dirs5}   \* square / round bounds: the angle still matters for rectangles
            \cup {EAnn(k, d, "absent") : k \in {"eannulus", "rannulus"}, d \in Dirs5}
